@@ -225,9 +225,19 @@ def decrypt(case, ctx):
         v = u(case["v"])
         opts = [("y+1", (x1, (y1 + 1) % M.P)), ("y-1", (x1, (y1 - 1) % M.P)), ("neg-y", (x1, M.P - y1)), ("zero", (0, 0)), ("x>=p", (M.P + (v % (gen.R256 - M.P)), y1)),
                 ("y>=p", (x1, M.P + (v % (gen.R256 - M.P)))), ("x=p", (M.P, y1)), ("random", (v % M.P, y1)), ("x+p", (x1 + M.P if x1 + M.P < gen.R256 else x1 ^ 1, y1)),
-                ("swap", (y1, x1)), ("y=0", (x1, 0)), ("small-x", None), ("small-x+p", None), ("small-y", None), ("small-y+p", None)]
+                ("swap", (y1, x1)), ("y=0", (x1, 0)), ("small-x", None), ("small-x+p", None), ("small-y", None), ("small-y+p", None), ("zero-consistent", "inf")]
         lab, xy = opts[sel % len(opts)]
-        if xy is None:
+        if xy == "inf":
+            # C1 = (0,0) with C2, C3 computed as if [d]C1 were the point "at infinity" with coordinates (0,0): consistent under every
+            # private key, so an implementation that lets the all-zero point through decrypts an attacker-chosen plaintext
+            z = bytes(32)
+            t = M.kdf(z + z, len(pt))
+            if not any(t):
+                ctx.note("kdf-all-zero"); return
+            c2 = bytes(a ^ b for a, b in zip(pt, t))
+            c3 = M.sm3(z + pt + z)
+            xy = (0, 0)
+        elif xy is None:
             # C1 with a coordinate < 2^256 - p (no nonce is known for such a point; the ciphertext is built with the private key):
             # the reduced encoding is a valid ciphertext, the same coordinate written as c + p is not a field element
             sp = M.small_x_point(v) if "-x" in lab else M.small_y_point(v)
